@@ -7,7 +7,7 @@ import typing
 from .. import scen, vrt
 from ..chx.api import P, concrete, harness, ladder, pick, shard
 from .common import Setup
-from .conc import Caller, StreamCounter, desync_oracle, run_callers, token_oracle
+from .conc import Caller, ParkedWaiterOracle, StreamCounter, desync_oracle, run_callers, token_oracle
 
 import httpcore
 
@@ -51,7 +51,9 @@ _PER_PROP["C01"]["quick"] = _PER_PROP["C01"]["quick"] + [
     "C07", "pool_conc",
     quick=[{"ct": ct, "N": n, "P": 1, "_pre": f"lay == {lay} and beh <= 1 and {mode}"}
            for (ct, n) in (("h11", 1), ("h11", 2), ("h2", 1), ("h1-on-h2-pool", 1), ("socks-on-h2-pool", 1)) for lay in (2, 3)
-           for mode in ("cancel == 0 and d0 <= 30", "cancel > 0 and d0 == 0 and c0 == 0")],
+           for mode in ("cancel == 0 and d0 <= 30", "cancel > 0 and d0 == 0 and c0 == 0")]
+    + [{"ct": ct, "N": 1, "P": 1, "slow": 1, "_pre": f"lay == {lay} and beh == 0 and pto == 0 and cancel == 0 and d0 <= 20"}
+       for ct in ("h11", "h2", "h2prior", "h1-on-h2-pool") for lay in (2, 3)],
     per_prop=_PER_PROP,
     thorough=[{"ct": ct, "N": 1, "P": 2, "_timeout": 900,
                "_pre": f"lay == {lay} and cancel == 0 and beh == 0 and pto == 0 and d0 % 4 == {r}"}
@@ -59,12 +61,15 @@ _PER_PROP["C01"]["quick"] = _PER_PROP["C01"]["quick"] + [
     + [{"ct": ct, "N": n, "P": 1, "_pre": f"lay == {lay} and cancel == 0"}
        for ct in ("h11", "h2", "h1-on-h2-pool", "tunnel", "socks-on-h2-pool") for n in (1, 2) for lay in range(6)]
     + [{"ct": ct, "N": n, "P": 1, "_pre": f"lay == {lay} and cancel > 0 and d0 == 0 and c0 == 0"}
-       for ct in ("h11", "h2", "h1-on-h2-pool", "tunnel", "socks-on-h2-pool") for n in (1, 2) for lay in range(6)],
+       for ct in ("h11", "h2", "h1-on-h2-pool", "tunnel", "socks-on-h2-pool") for n in (1, 2) for lay in range(6)]
+    + [{"ct": ct, "N": n, "P": 1, "slow": 1, "_pre": f"lay == {lay} and {mode}"}
+       for ct in ("h11", "h2", "h2prior", "h1-on-h2-pool", "socks-on-h2-pool") for n in (1, 2) for lay in (2, 3, 4)
+       for mode in ("cancel == 0", "cancel > 0 and d0 == 0 and c0 == 0")],
     example=dict(lay=2, d0=3, c0=1, d1=0, c1=0, beh=0, pto=0, cancel=0, who=0),
-    require=("all-served", "waited"),
+    require=("all-served", "waited", "waiter-sampled-at-rest"),
     timeout={"quick": 300, "thorough": 1500},
     symbolic="caller layout (2-3 callers over 1-2 origins); up to P deviations from the FIFO schedule (decision index, choice); caller behaviour (read the body / abandon it); whether the last caller has a pool timeout; cancellation of one caller (which one is symbolic) at a scheduler step (0 = none)",
-    bounds="<= 3 callers, <= 2 origins, max_connections N in {1,2}, P <= 1 (quick) / 2 (thorough) deviations among the first 40 scheduling decisions, HTTP/1.1, HTTP/2, HTTP/1.1 server behind an http2-enabled pool (the 'turned out to be HTTP/1.1' re-queue), tunnel proxy",
+    bounds="<= 3 callers, <= 2 origins, max_connections N in {1,2}, P <= 1 (quick) / 2 (thorough) deviations among the first 40 scheduling decisions, HTTP/1.1, HTTP/2, HTTP/1.1 server behind an http2-enabled pool (the 'turned out to be HTTP/1.1' re-queue), tunnel proxy; 'slow' shards: servers answer after 3 time units and the waiting requests are examined whenever every task is blocked",
     outside="more callers/deviations; unbounded arrival streams (fairness)",
     stubs=("verif.vrt scheduler: FIFO ready queue + bounded deviations", "servers answer every request"),
     also=("C01", "C04", "C05", "C06", "C08", "C15"),
@@ -109,10 +114,15 @@ def _pool_conc(layout: tuple[int, ...], devs: list[tuple[int, int]], behaviours:
     if ct == "socks-on-h2-pool":
         real_ct = "sockstls"
         kw["http2"] = True  # same through a SOCKS5 proxy: the connecting connection is shared
-    su = Setup(real_ct, True, max_connections=N, **kw)
-    sig = f"conc:{ct}:N{N}"
+    slow = shard("slow", 0)
+    su = Setup(real_ct, True, max_connections=N, delay=3 if slow else None, **kw)
+    sig = f"conc:{ct}:N{N}" + (":slow" if slow else "")
     counter = StreamCounter(su, N, sig)
     callers = _mk(su, layout, pool_to, behaviours)
+    if slow:
+        # servers answer after 3 time units: the system comes to rest while
+        # requests are in flight, and the waiters are examined there
+        ParkedWaiterOracle(su, callers, N, sig)
     cancels = [(f"c{who}", cancel_at, False)] if cancel_at else []
     run_callers(su, callers, devs, cancels)
     rt = vrt.RT
